@@ -35,13 +35,13 @@ ROOT_PRESETS = [
 NUMERIC_RX = {"dkpp_h", "etac_c", "gpp_c", "gpp_h", "gpp1_h", "gpp1_h+r", "gpp_h+r", "d3pi_h", "d3pi_h+r", "ppg_h", "ppg_c"}
 
 
-def generate(seed_: int, run: int, reactions: list[str]) -> dict:
+def generate(seed_: int, run: int, reactions: list[str], deep: bool = False) -> dict:
     rng = core.run_rng(PROP, seed_, run)
     presets = [p for p in ROOT_PRESETS if p["rx"] in reactions]
     roots = [dict(rng.choice(presets)) for _ in range(rng.choice([1, 2, 2, 3]))]
     numeric = all(r["rx"] in NUMERIC_RX for r in roots) and rng.random() < 0.5
     ops: list[dict] = []
-    for _ in range(rng.randrange(3, 12)):
+    for _ in range(rng.randrange(3, 12) if not (deep and run % 3 == 0) else rng.randrange(12, 30)):
         r = rng.random()
         slot = rng.randrange(64)
         if r < 0.6:
@@ -92,7 +92,7 @@ class Context:
         self.info = zy.ensure("H0")
 
     def run(self, r: int) -> dict:
-        workload = generate(self.seed, r, self.info["reactions"])
+        workload = generate(self.seed, r, self.info["reactions"], deep=self.options.get("tier") == "thorough")
         out = execute(self.zy, workload)
         res = out["result"]
         stats = {
